@@ -23,14 +23,14 @@ RULE = (
     "data/nested entity class) with a generated instance, preceded by an instance of its __header_schema__ (request "
     "header key/version filled from the payload class as in docs/pages/usage.rst); 0-32 leading and trailing junk "
     "bytes; one sink kind (BytesIO, write-only sink, real asyncio.StreamWriter over a recording transport, non-seekable "
-    "BufferedWriter, unbuffered file object of a real OS socket pair) and one source kind (BytesIO, read-only exact-size "
+    "BufferedWriter, unbuffered file object of a real OS socket pair, a queueing sink that keeps references without copying) and one source kind (BytesIO, read-only exact-size "
     "source, BufferedReader over a non-seekable raw stream with short reads, buffered file object of a real OS socket) per case. Oracle: (1) the bytes on the chosen sink equal lead + concatenation of each entity encoded alone "
     "into a fresh BytesIO + trail; (2) reading header_1, payload_1, ... in order from one source returns the original "
     "values and stops exactly at len(lead)+sum; (3) the write-only sink saw only write(bytes-like) calls and the "
     "read-only source only read(int>=0) calls whose sizes sum to the bytes consumed; any other stream access is a "
     "violation. Non-trivial = >=2 messages of different classes with non-empty lead and trail; distinct by case hash."
 )
-SINKS = ["bytesio", "writeonly", "streamwriter", "buffered_nonseekable", "socket"]
+SINKS = ["bytesio", "writeonly", "streamwriter", "buffered_nonseekable", "socket", "queueing_nocopy"]
 SOURCES = ["bytesio", "readonly", "buffered_nonseekable", "socket"]
 
 
@@ -58,6 +58,23 @@ class _RawNoSeek(io.RawIOBase):
     def write(self, b):
         self.written += bytes(b)
         return len(b)
+
+
+class _QueueingSink:
+    def __init__(self):
+        self.queue = []
+
+    def write(self, data):
+        if not isinstance(data, (bytes, bytearray, memoryview)):
+            raise StreamProtocolViolation(f"sink.write({type(data).__name__}): not bytes-like")
+        self.queue.append(data)  # no copy on purpose
+        return len(data)
+
+    def value(self) -> bytes:
+        return b"".join(bytes(c) for c in self.queue)
+
+    def __getattr__(self, name):
+        raise StreamProtocolViolation(f"sink.{name} accessed")
 
 
 def _payload_classes():
@@ -122,6 +139,22 @@ def _entities(case):
 
 
 def check(case) -> list[tuple[str, str]]:
+    """The drawn sink/source kinds, plus - always - the two kinds that expose the most: the queueing sink that never
+    copies paired with the strict read-only source, and the write-only sink paired with BytesIO."""
+    combos = [(case["sink"], case["source"]), ("queueing_nocopy", "readonly"), ("writeonly", "bytesio")]
+    out: list = []
+    seen = set()
+    for kind, skind in combos:
+        if (kind, skind) in seen:
+            continue
+        seen.add((kind, skind))
+        for sig, msg in check_with(case, kind, skind):
+            if sig not in {s for s, _ in out}:
+                out.append((sig, msg))
+    return out
+
+
+def check_with(case, kind: str, skind: str) -> list[tuple[str, str]]:
     ents = _entities(case)
     lead, trail = bytes.fromhex(case["lead"]), bytes.fromhex(case["trail"])
     alone = []
@@ -133,7 +166,6 @@ def check(case) -> list[tuple[str, str]]:
     expected = lead + b"".join(alone) + trail
     out = []
     # ---- writing through the drawn sink kind
-    kind = case["sink"]
     loop = None
     socks: list = []
     try:
@@ -142,6 +174,11 @@ def check(case) -> list[tuple[str, str]]:
             getv = sink.getvalue
         elif kind == "writeonly":
             sink = WriteOnlySink()
+            getv = sink.value
+        elif kind == "queueing_nocopy":
+            # keeps a reference to every object it is handed and only copies when drained (like an asyncio transport
+            # with a full send buffer): a writer that reuses a mutable buffer changes earlier chunks retroactively
+            sink = _QueueingSink()
             getv = sink.value
         elif kind == "streamwriter":
             sink, transport, loop = make_stream_writer()
@@ -187,7 +224,6 @@ def check(case) -> list[tuple[str, str]]:
     if got != expected:
         out.append((f"sink-bytes-differ:{kind}", f"sink kind {kind}: stream has {got.hex()[:300]}\n expected lead + parts + trail {expected.hex()[:300]}"))
     # ---- reading back through the drawn source kind
-    skind = case["source"]
     stream = expected
     rsocks: list = []
     if skind == "bytesio":
